@@ -191,6 +191,17 @@ fn check_text(c: &Case, obs: &mut Obs) {
     obs.class_if(font == "null", "null-font");
     obs.class_if(text.is_empty(), "empty-string");
     let (tc, bg, ul, st) = egverif::texts::deco16()[*deco as usize];
+    if let Some(spec) = font.strip_prefix("custom:") {
+        // "custom:<cw>x<ch>+<spacing>": a synthetic font (harness allocations happen outside the probes)
+        let (size, spacing) = spec.split_once('+').unwrap();
+        let (cw, ch) = size.split_once('x').unwrap();
+        obs.class("custom-font");
+        egverif::texts::with_custom_font(cw.parse().unwrap(), ch.parse().unwrap(), spacing.parse().unwrap(), 3, |f| {
+            let style = egverif::texts::char_style::<C>(f, tc, bg, ul, st);
+            text_probes(text, *pos, style, *lh, *align, *baseline, obs)
+        });
+        return;
+    }
     let style = if font == "null" {
         let mut b = MonoTextStyleBuilder::<C>::new();
         if tc {
@@ -209,6 +220,13 @@ fn check_text(c: &Case, obs: &mut Obs) {
     } else {
         egverif::texts::char_style::<C>(egverif::texts::font_by_name(font).unwrap(), tc, bg, ul, st)
     };
+    text_probes(text, *pos, style, *lh, *align, *baseline, obs)
+}
+
+fn text_probes(text: &str, pos: P2, style: embedded_graphics::mono_font::MonoTextStyle<'_, C>, lh: (u8, u32), align: u8, baseline: u8, obs: &mut Obs) {
+    use embedded_graphics::text::renderer::TextRenderer;
+    probe(obs, "measure_string", || style.measure_string(text, Point::new(pos.0, pos.1), egverif::texts::baseline(baseline)));
+    let (lh, align, baseline, pos) = (&lh, &align, &baseline, &pos);
     let ts = TextStyleBuilder::new().alignment(egverif::texts::align(*align)).baseline(egverif::texts::baseline(*baseline)).line_height(egverif::texts::line_height(*lh)).build();
     let t = Text::with_text_style(text, Point::new(pos.0, pos.1), style, ts);
     probe(obs, "text bounding_box", || t.bounding_box());
@@ -572,7 +590,7 @@ fn prim_cases(tier: Tier, part: &str) -> Vec<Case> {
 fn other_cases(tier: Tier) -> Vec<Case> {
     let mut v = vec![];
     // text: null font, line heights, empty strings
-    for font in ["null", "ascii::FONT_4X6", "iso_8859_1::FONT_10X20"] {
+    for font in ["null", "ascii::FONT_4X6", "iso_8859_1::FONT_10X20", "custom:5x7+1", "custom:3x2+4", "custom:8x8+0", "custom:1x1+1024"] {
         for text in ["", "a", "ab\ncd", "\n\n", "x\r\ny\n", "Hello World! Hello World!", "\u{1F600}\u{0}"] {
             for lh in [(0u8, 0u32), (0, 1), (0, 1024), (1, 400), (1, 100), (1, 0)] {
                 for align in 0..3u8 {
@@ -672,7 +690,7 @@ fn main() {
         assumptions: &["'no heap allocation' is measured for the explored executions; both crates are also #![no_std] without alloc", "iterators of shapes whose box exceeds 2^18 pixels are truncated in the draw_iter-only path (the native-target path runs the whole drawing loop)", "Rectangle arithmetic beyond i32::MAX (Point + Size panics by documented design) is not used"],
         parts,
         run_part,
-        required_classes: |_| vec!["rect", "circle", "ellipse", "rrect", "triangle", "line", "arc", "sector", "polyline", "dotted", "stroke-width>=64", "degenerate", "truncated-iteration", "text", "null-font", "empty-string", "image", "sub-image", "zero-sized-image", "adapter", "out-of-range"],
+        required_classes: |_| vec!["rect", "circle", "ellipse", "rrect", "triangle", "line", "arc", "sector", "polyline", "dotted", "stroke-width>=64", "degenerate", "truncated-iteration", "text", "null-font", "custom-font", "empty-string", "image", "sub-image", "zero-sized-image", "adapter", "out-of-range"],
         crash_is_verdict: true,
     })
 }
